@@ -15,4 +15,9 @@
 #define RB_POS m_lru_position
 #include "recency_base.h"
 static inline bool lru_wf(const lru_cache *c) { return lru_wf_base(c); }
+/* the whole view of key g is the same in two states (C18 relational harnesses) */
+static inline bool lru_view_eq(const lru_cache *a, const lru_cache *b, uint64_t g)
+{
+    return lru_has(a, g) == lru_has(b, g) && (!lru_has(a, g) || lru_val(a, g) == lru_val(b, g)) && lru_ord(a, g) == lru_ord(b, g);
+}
 #endif
